@@ -27,7 +27,7 @@ import tempfile
 from concurrent.futures import ProcessPoolExecutor
 from typing import Any
 
-from vf import tlc
+from vf import streaming, tlc
 from vf.evidence import MachineryFailure
 
 OBJS = ['o1', 'o2', 'o3']
@@ -69,6 +69,9 @@ def run_continuity(sc: dict[str, Any]) -> dict[str, Any]:
             sim.srv.policy = policy
         x = {o: 0 for o in OBJS}
         fatal_at: list[float] = []
+        from sim.fakek8s import ResDef
+        others = sim.srv.add_resource(ResDef(GROUP, VERSION, 'others', 'Other'))
+        nb = [0]
 
         def things_watches():
             return [w for w in sim.srv.watches if w.res.plural == PLURAL]
@@ -87,6 +90,10 @@ def run_continuity(sc: dict[str, Any]) -> dict[str, Any]:
             elif opn == 'gone410':
                 sim.srv.compact(sim.things)
                 for w in things_watches(): w.end('eof')
+            elif opn == 'bump':         # an object of an unrelated kind changes: the cluster's version moves, the stream of `things` is silent
+                nb[0] += 1
+                if sim.srv.get(others, 'default', 'x') is None: sim.srv.create(others, 'default', 'x', {'spec': {'n': nb[0]}})
+                else: sim.srv.edit(others, 'default', 'x', lambda o_: o_.setdefault('spec', {}).update(n=nb[0]), actor='ext')
             elif opn == 'bookmark':
                 sim.srv.bookmark(sim.things)
             elif opn == 'weird':
@@ -104,10 +111,11 @@ def run_continuity(sc: dict[str, Any]) -> dict[str, Any]:
         except Stall:
             stall = True
         watched = sorted(f'{w.res.plural}|{w.ns or "*"}' for w in sim.srv.watches if w.res.plural == PLURAL)
-        events = convert(sim.recorder.events, {PLURAL}) + [{'ev': 'check', 'served': [f'{PLURAL}|*'], 'watched': watched, 'settled': True}]
+        events = convert(sim.recorder.events, {PLURAL}) + [{'ev': 'check', 'served': [f'{PLURAL}|*'], 'watched': watched, 'settled': True, 'cscoped': []}]
+        steps = [] if stall else streaming.segments(sim.recorder.events, streaming.conf_from_settings(op.settings), sc['id'], end_t=sc['end'])
         if not stall:
             op.finish()
-        return {'id': sc['id'], 'events': events, 'stall': stall, 'scenario': sc}
+        return {'id': sc['id'], 'events': events, 'stall': stall, 'scenario': sc, 'steps': steps}
     finally:
         sim.close()
 
@@ -144,7 +152,7 @@ def convert(raw: list[dict[str, Any]], plurals: set[str], attempts: int = 3) -> 
                 if e.get('fault') == 'status' and (e.get('code', 0) >= 500 or e.get('code') == 403):
                     out.append({'ev': 'fatal', 'key': f'{e["plural"]}|{e.get("ns") or "*"}', 'why': 'escalated'})
         elif ev == 'env.check':
-            out.append({'ev': 'check', 'served': e['served'], 'watched': e['watched'], 'settled': False})
+            out.append({'ev': 'check', 'served': e['served'], 'watched': e['watched'], 'settled': False, 'cscoped': e.get('cscoped', [])})
         elif ev == 'srv.req' and e.get('plural') in plurals and e.get('kind') in ('list', 'watch') and e.get('code') == 404:
             out.append({'ev': 'notfound', 'key': f'{e["plural"]}|{e.get("ns") or "*"}'})
     return out
@@ -160,8 +168,12 @@ def run_coverage(sc: dict[str, Any]) -> dict[str, Any]:
         reg = sim.registry()
         kopf.on.event(GROUP, VERSION, PLURAL, registry=reg, id='see')(sim.handler('see', kind='event'))
         kopf.on.event(GROUP, VERSION, 'widgets', registry=reg, id='seew')(sim.handler('seew', kind='event'))
+        kopf.on.event(GROUP, VERSION, 'cthings', registry=reg, id='seec')(sim.handler('seec', kind='event'))
         nsres = sim.srv.find('namespaces')
         widgets = ResDef(GROUP, VERSION, 'widgets', 'Widget', namespaced=True)
+        # a cluster-scoped kind served by an operator that is restricted to namespaces: ONE cluster-wide watch, however many namespaces
+        cthings = sim.srv.add_resource(ResDef(GROUP, VERSION, 'cthings', 'CThing', namespaced=False))
+        sim.srv.create_crd_object(cthings)
         present_ns: set[str] = set()
         present_res = {PLURAL}
         sim.srv.create_crd_object(sim.things)
@@ -171,9 +183,10 @@ def run_coverage(sc: dict[str, Any]) -> dict[str, Any]:
         events: list[dict[str, Any]] = []
 
         def check():
-            served = sorted(f'{r}|{ns}' for r in present_res for ns in present_ns if ns.startswith('ns'))
-            watched = sorted(f'{w.res.plural}|{w.ns or "*"}' for w in sim.srv.watches if w.res.plural in (PLURAL, 'widgets'))
-            sim.rec('env.check', served=served, watched=watched)
+            served = sorted([f'{r}|{ns}' for r in present_res for ns in present_ns if ns.startswith('ns')]
+                            + (['cthings|*'] if any(ns.startswith('ns') for ns in present_ns) else []))
+            watched = sorted(f'{w.res.plural}|{w.ns or "*"}' for w in sim.srv.watches if w.res.plural in (PLURAL, 'widgets', 'cthings'))
+            sim.rec('env.check', served=served, watched=watched, cscoped=['cthings|*'])
 
         def do(opn, *a):
             if opn == 'nsadd' and a[0] not in present_ns:
@@ -201,11 +214,12 @@ def run_coverage(sc: dict[str, Any]) -> dict[str, Any]:
         stall = False
         try:
             sim.run(sc['end']); check()
+            steps = streaming.segments(sim.recorder.events, streaming.conf_from_settings(op.settings), sc['id'], end_t=sc['end'])
             op.finish()
         except Stall:
-            stall = True
-        events = [e for e in convert(sim.recorder.events, {PLURAL, 'widgets'}) if e['ev'] in ('check', 'notfound', 'open', 'list')]
-        return {'id': sc['id'], 'events': events, 'stall': stall, 'scenario': sc}
+            stall = True; steps = []
+        events = [e for e in convert(sim.recorder.events, {PLURAL, 'widgets', 'cthings'}) if e['ev'] in ('check', 'notfound', 'open', 'list')]
+        return {'id': sc['id'], 'events': events, 'stall': stall, 'scenario': sc, 'steps': steps}
     finally:
         sim.close()
 
@@ -254,11 +268,12 @@ def run_crdmod(sc: dict[str, Any]) -> dict[str, Any]:
         stall = False
         try:
             sim.run(sc['end']); check()
+            steps = streaming.segments(sim.recorder.events, streaming.conf_from_settings(op.settings), sc['id'], end_t=sc['end'])
             op.finish()
         except Stall:
-            stall = True
+            stall = True; steps = []
         events = [e for e in convert(sim.recorder.events, set()) if e['ev'] == 'check']
-        return {'id': sc['id'], 'events': events, 'stall': stall, 'scenario': sc}
+        return {'id': sc['id'], 'events': events, 'stall': stall, 'scenario': sc, 'steps': steps}
     finally:
         sim.close()
 
@@ -288,6 +303,10 @@ def gen_continuity(seed: int, n: int) -> list[dict[str, Any]]:
             env.append((t, opn, rnd.choice(OBJS)) if opn in ('add', 'edit', 'delete') else (t, opn))
         sc = {'id': f'cont-{seed}-{i}', 'env': env, 'end': t + 30, 'rv0': rnd.choice([5, 8, 95, 98, 100, 993, 997, 4321])}
         r2 = random.Random(f'cont-x-{seed}-{i}')        # (a stream of its own: the histories of earlier rounds stay as they were)
+        # bookmarks that say something: the version of the cluster has moved on (another kind changed) while `things` were silent
+        sc['env'] = [x_ for e_ in env for x_ in (([(e_[0], 'bump')] if e_[1] == 'bookmark' and r2.random() < 0.7 else []) + [e_])]
+        if i % 5 == 4:
+            tb = r2.randint(2, max(3, t)); sc['env'] = sorted(sc['env'] + [(tb, 'bump'), (tb, 'bookmark'), (tb + r2.choice([0, 1, 2]), r2.choice(['eof', 'conn']))], key=lambda e_: e_[0])
         if i % 3 == 1:
             sc['timeouts'] = {r2.choice(['server', 'client', 'inactivity']): r2.choice([2, 3, 5])}
             if r2.random() < 0.3: sc['timeouts'][r2.choice(['server', 'client', 'inactivity'])] = r2.choice([2, 4, 7])
@@ -368,6 +387,16 @@ def run(ctx, rep) -> None:
             raise MachineryFailure(f'{cfg} did not violate {inv}: {rn.violated}')
     rep.extra['negative_config_orchestration'] = ('MC_Orchestration_neg (lock released while adjusting: lost wake-up): Coverage violated; '
                                                   'MC_Orchestration_f15: the family of watchers that die on their own (F15, F25) is reachable')
+    # the implementation-shaped model of one watcher task (Streaming.tla) closed with a server: continuity, pauses, inactivity
+    for c in (['q'] if ctx.quick else ['q', 'pos']):
+        r = tlc.run('MC_Streaming', f'MC_Streaming_{c}.cfg', timeout=3000)
+        rep.add_tlc(f'MC_Streaming_{c}', r)
+        if not r.ok:
+            rep.violation(f'Streaming design check {c}: {r.violated} {r.errors[:1]}', files={'tlc.out': r.out[-100000:]})
+    rn = tlc.run('MC_Streaming', 'MC_Streaming_neg.cfg')
+    if rn.ok or ('invariant', 'SinceNeverAhead') not in rn.violated:
+        raise MachineryFailure(f'MC_Streaming_neg did not violate SinceNeverAhead: {rn.violated}')
+    rep.extra['negative_config_streaming'] = 'MC_Streaming_neg (after a 410 the watch resumes from the version the server names instead of re-listing): SinceNeverAhead violated'
     cont = gen_continuity(ctx.seed, 150 if ctx.quick else 4000)
     cov = gen_coverage(ctx.seed, 60 if ctx.quick else 1500)
     with ProcessPoolExecutor(16) as ex:
@@ -382,7 +411,7 @@ def run(ctx, rep) -> None:
         if t['stall']:
             rep.violation(f'{t["id"]}: event loop stalled', payload=t)
         elif v != 'ok':
-            rep.classified(v if v in ('F15', 'F25', 'F32') else '', f'{t["id"]}: {v}', payload=t)
+            rep.classified(v if v in ('F15', 'F25', 'F32', 'F34') else '', f'{t["id"]}: {v}', payload=t)
     # "while paused nothing is listed or watched, and watching restarts on resume": one operator, a peering per served namespace, foreign
     # records that block and free single peerings, namespaces that disappear (with a blocked peering) and come back - PauseSet.tla
     # requires at every rest point that the streams are open iff no peering that is still served reports a conflict
@@ -397,4 +426,19 @@ def run(ctx, rep) -> None:
             rep.violation(f'{t["id"]}: event loop stalled', payload=t)
         elif dv[t['id']] != 'ok':
             rep.violation(f'{t["id"]}: {dv[t["id"]]}', payload=t)
+    # step conformance: every watcher task of every run above (the observers' own streams and the peerings' included) against
+    # Streaming.tla, second by second -- the version each watch resumes from, the instant of every request (backoffs, Retry-After,
+    # reconnect_backoff, the inactivity timer), the hand-over of every event to the multiplexer, the closing of the stream on a pause
+    segs = [s for t in traces + dtraces for s in t.get('steps', []) if s['bindable'] and s['conf']]
+    sv = streaming.judge(segs, rep)
+    rep.evaluations += len(segs); rep.traces += len(segs)
+    rep.extra['streaming_segments'] = len(segs)
+    rep.extra['streaming_events'] = sum(len(s['events']) for s in segs)
+    for s in segs:
+        if sum(1 for e in s['events'] if e['ev'] in ('fail', 'end', 'pause')) > 0:
+            rep.nontrivial(s['events'])
+        if sv[s['id']]['verdict'] != 'accepted':
+            rep.violation(f'{s["id"]}: watcher task is not a behaviour of Streaming.tla: {sv[s["id"]]["verdict"]}', payload=s)
     rep.sample({'scenario': traces[0]['scenario'], 'events_head': traces[0]['events'][:12]}); rep.sample(traces[-1]['events'][-3:])
+    if segs:
+        rep.sample({'watcher': segs[0]['id'], 'conf': segs[0]['conf'], 'events_head': segs[0]['events'][:14]})
